@@ -22,7 +22,7 @@ fn delivered_intact(run: &FaultRun, a: &Attempt) -> bool {
 fn served_any(run: &FaultRun, a: &Attempt) -> bool {
 	a.reqs.iter().any(|i| {
 		let l = &run.snap.log[*i];
-		l.pos == Pos::Cert && l.status == 200 && l.action.as_deref() != Some("NonPemBody") && l.action.as_deref() != Some("DamagedChain")
+		l.pos == Pos::Cert && l.status == 200 && l.action.as_deref() != Some("NonPemBody") && l.action.as_deref() != Some("DamagedChain") && l.action.as_deref() != Some("ReversedChain")
 	})
 }
 
@@ -148,7 +148,7 @@ fn single_cases(tier: Tier) -> Vec<FaultCase> {
 				Tier::Quick => vec![(i % 2 == 0, 1 + (i % 3 == 0) as usize)],
 				Tier::Thorough => vec![(false, 1), (true, 1), (i % 2 == 0, 3)],
 			};
-			variants.into_iter().map(move |(pp, attempts)| FaultCase { faults: vec![f.clone()], previous_pair: pp, kp_reuse: false, attempts, nonce_on_get: false, hook_faults: vec![], file_hooks: false, retry_after: None, processing: false, mixed_hooks: false }).collect::<Vec<_>>()
+			variants.into_iter().map(move |(pp, attempts)| FaultCase { faults: vec![f.clone()], previous_pair: pp, kp_reuse: false, attempts, nonce_on_get: false, hook_faults: vec![], file_hooks: false, retry_after: None, processing: false, mixed_hooks: false, early_renew: pp && attempts > 1 || i % 5 == 0 }).collect::<Vec<_>>()
 		})
 		.collect()
 }
@@ -159,7 +159,7 @@ fn hook_cases() -> Vec<FaultCase> {
 	for h in hooks {
 		for b in ["exit:1", "exit:2", "exit:126", "exit:255", "kill"] {
 			for pp in [false, true] {
-				out.push(FaultCase { faults: vec![], previous_pair: pp, kp_reuse: false, attempts: 2, nonce_on_get: false, hook_faults: vec![(h.to_string(), b.to_string())], file_hooks: true, retry_after: None, processing: false, mixed_hooks: pp });
+				out.push(FaultCase { faults: vec![], previous_pair: pp, kp_reuse: false, attempts: 2, nonce_on_get: false, hook_faults: vec![(h.to_string(), b.to_string())], file_hooks: true, retry_after: None, processing: false, mixed_hooks: pp, early_renew: pp });
 			}
 		}
 	}
@@ -419,12 +419,13 @@ pub fn multi_attempt_strategy() -> impl Strategy<Value = FaultCase> {
 	(super::c03::multi_fault_strategy(4), any::<bool>()).prop_map(|(mut c, mixed)| {
 		c.attempts = c.attempts.max(2);
 		c.mixed_hooks = mixed;
+		c.early_renew = !mixed || c.previous_pair;
 		c
 	})
 }
 
 pub fn run(ctx: &Ctx, rep: &mut Report) {
-	rep.rule = "single: the exhaustive (position x action) fault matrix of a 2-identifier issuance (see C03), 1..3 consecutive attempts; hooks: each hook of the certificate and of the account x exit behaviour {1,2,126,255,SIGKILL} x {previous pair, none}; plans: random plans of 2..5 faults over 2..4 attempts in one process; multi: 2..6 certificates sharing or not account and endpoint, a random non-empty proper subset failing permanently; pause: directory/account/order-level faults against the build WITHOUT the hooks (shipped waits), plus failed attempts that themselves last 61.5 s (thorough: also 11 s and 125 s) because the CA answers slowly. Oracle: daemon alive after every attempt; every attempt ends (120 s watchdog vs 0.2 s typical); exactly one post-operation run per attempt (attempts delimited by directory requests in the CA log), also for a hook whose type list mixes file-post-create / file-post-edit with post-operation; is_success=true => the CA served the certificate in that attempt and both files hold it and its key; CA delivered intact and no hook failed => true; failure => non-empty status text; hard hook failure => false; every fault-free certificate issued while the others keep failing and are retried; no request of the next attempt within 1 s after a failed attempt ended. Non-trivial = an attempt failed after at least one successful non-directory request, or several certificates with one failing, or a pause case.".into();
+	rep.rule = "single: the exhaustive (position x action) fault matrix of a 2-identifier issuance (see C03), 1..3 consecutive attempts, a fifth of the cases and all multi-attempt cases with an installed pair under random_early_renew = 3 s; hooks: each hook of the certificate and of the account x exit behaviour {1,2,126,255,SIGKILL} x {previous pair, none}; plans: random plans of 2..5 faults over 2..4 attempts in one process; multi: 2..6 certificates sharing or not account and endpoint, a random non-empty proper subset failing permanently; pause: directory/account/order-level faults against the build WITHOUT the hooks (shipped waits), plus failed attempts that themselves last 61.5 s (thorough: also 11 s and 125 s) because the CA answers slowly. Oracle: daemon alive after every attempt; every attempt ends (120 s watchdog vs 0.2 s typical); exactly one post-operation run per attempt (attempts delimited by directory requests in the CA log), also for a hook whose type list mixes file-post-create / file-post-edit with post-operation; is_success=true => the CA served the certificate in that attempt and both files hold it and its key; CA delivered intact and no hook failed => true; failure => non-empty status text; hard hook failure => false; every fault-free certificate issued while the others keep failing and are retried; no request of the next attempt within 1 s after a failed attempt ended. Non-trivial = an attempt failed after at least one successful non-directory request, or several certificates with one failing, or a pause case.".into();
 	rep.assume("pause measured as (arrival of the next request at the CA) - (exit of the post-operation hook), a sound lower bound of the true gap");
 	run_replays::<FaultCase>(ctx, rep, "single", &exec);
 	run_replays::<FaultCase>(ctx, rep, "hooks", &exec);
